@@ -779,6 +779,23 @@ class Engine:
         b = self.ev(node.right, st)
         return self.binop(node.op, a, b, st, node)
 
+    def vite(self, c, a, b, st):
+        """value-level if-then-else that also works for references to sequences (a merged sequence is allocated)"""
+        c = z3.simplify(c)
+        if z3.is_true(c):
+            return a
+        if z3.is_false(c):
+            return b
+        if isinstance(a, VRef) and isinstance(b, VRef):
+            if a.addr == b.addr:
+                return a
+            oa, ob = st.heap[a.addr], st.heap[b.addr]
+            if isinstance(oa, HSeq) and isinstance(ob, HSeq):
+                ga, gb = oa.get, ob.get
+                return st.alloc(HSeq(z3.If(c, oa.len, ob.len), lambda k: self.vite(c, ga(k), gb(k), st), numpy=oa.numpy and ob.numpy, etype=oa.etype or ob.etype))
+            raise Unsupported("if-then-else over heap objects of different kinds")
+        return ite(c, a, b)
+
     def is_np(self, v, st):
         return isinstance(v, VRef) and isinstance(st.heap[v.addr], HSeq) and st.heap[v.addr].numpy
 
@@ -797,7 +814,7 @@ class Engine:
         if self.is_seq(a, st) and self.is_seq(b, st) and isinstance(op, ast.Add):
             oa, ob = st.heap[a.addr], st.heap[b.addr]
             la, ga, gb = oa.len, oa.get, ob.get
-            return st.alloc(HSeq(oa.len + ob.len, lambda k: ite(k < la, ga(k), gb(k - la)), etype=oa.etype or ob.etype))
+            return st.alloc(HSeq(oa.len + ob.len, lambda k: self.vite(k < la, ga(k), gb(k - la), st), etype=oa.etype or ob.etype, note=("listconcat", oa, ob)))
         if isinstance(op, ast.Mult) and (self.is_seq(a, st) or self.is_seq(b, st)):
             seq, n = (a, b) if self.is_seq(a, st) else (b, a)
             if not isinstance(n, (VInt, VBool)):
@@ -947,7 +964,7 @@ class Engine:
                 return items[k.as_long()]
             r = items[-1]
             for i in range(len(items) - 2, -1, -1):
-                r = ite(k == i, items[i], r)
+                r = self.vite(k == i, items[i], r, st)
             return r
         return st.alloc(HSeq(n, get, numpy=numpy, memfn=memfn))
 
